@@ -19,9 +19,9 @@ EXTENDS Integers, Sequences, FiniteSets, TLC, Json, IOUtils
 Trace == ndJsonDeserialize(IOEnv.TRACE_FILE)
 
 VARIABLES l, cfg, added, removed, sclosed, accepted, winLo, winHi, rejected, rejClosed, closeCalled,
-          started, replied, hung, sdNil, startedAtSd, cancelled, serveRet, lfailed, sdCalled
+          started, replied, hung, sdNil, startedAtSd, cancelled, serveRet, lfailed, sdCalled, wrote
 vars == <<l, cfg, added, removed, sclosed, accepted, winLo, winHi, rejected, rejClosed, closeCalled,
-          started, replied, hung, sdNil, startedAtSd, cancelled, serveRet, lfailed, sdCalled>>
+          started, replied, hung, sdNil, startedAtSd, cancelled, serveRet, lfailed, sdCalled, wrote>>
 
 NoCfg == [onAccept |-> FALSE, onClose |-> FALSE]
 Live == added \ removed
@@ -33,10 +33,12 @@ Max(a, b) == IF a > b THEN a ELSE b
 \* beyond the listed properties (check E05, VERIF_EXTRA=1)
 Extra == IOEnv.VERIF_EXTRA = "1"
 
+StillOpen(e) == {e.open[i] : i \in DOMAIN e.open}
 J_end(e) ==
     IF rejected \ rejClosed # {} THEN "rejected-connection-not-closed"
-    ELSE IF cfg.onClose /\ (added \cup removed) \ closeCalled # {} THEN "close-callback-missing-for-a-served-connection"
-    ELSE IF added \ removed # {} THEN "served-connection-never-removed-from-the-live-connection-accounting"
+    \* (a connection that is still open when the scenario ends - possible after a Shutdown that gave up - is still live)
+    ELSE IF cfg.onClose /\ ((added \cup removed) \ closeCalled) \ StillOpen(e) # {} THEN "close-callback-missing-for-a-served-connection"
+    ELSE IF (added \ removed) \ StillOpen(e) # {} THEN "served-connection-never-removed-from-the-live-connection-accounting"
     \* (a listener failure is outside C17's quantification: the serve call has then returned the listener's error before Shutdown came)
     ELSE IF sdNil /\ serveRet # "closed" /\ ~lfailed THEN "serve-did-not-return-the-server-closed-error-after-shutdown"
     ELSE IF sdNil /\ e.dialAfter THEN "listener-still-accepting-after-shutdown"
@@ -58,6 +60,10 @@ Judge(e) ==
       [] e.ev = "crash" -> "server-process-crashed"
       [] e.ev = "race" -> "data-race-reported-by-the-race-detector"
       [] e.ev = "shutdown.stuck" -> "shutdown-did-not-return"
+      \* "after a graceful shutdown returns successfully ... any request whose handler had started has received its
+      \* complete reply": judged at the moment Shutdown returns, by the server's own write of the reply
+      [] e.ev = "shutdown.ret" ->
+            IF e.err = "nil" /\ (started \ wrote) \ hung # {} THEN "shutdown-returned-success-while-a-started-request-was-still-unanswered" ELSE "ok"
       \* E05 (ServerLifecycle!ClosedOnlyWhenAsked): "server closed" answers Shutdown or cancellation only
       [] e.ev = "serve.ret" ->
             IF Extra /\ e.err = "closed" /\ lfailed /\ ~cancelled /\ ~sdCalled THEN "extra:listener-failure-reported-as-server-closed" ELSE "ok"
@@ -67,13 +73,13 @@ Judge(e) ==
 Init ==
     /\ l = 1 /\ cfg = NoCfg /\ added = {} /\ removed = {} /\ sclosed = {} /\ accepted = {} /\ winLo = 0 /\ winHi = 0
     /\ rejected = {} /\ rejClosed = {} /\ closeCalled = {} /\ started = {} /\ replied = {} /\ hung = {}
-    /\ sdNil = FALSE /\ startedAtSd = {} /\ cancelled = FALSE /\ serveRet = "none" /\ lfailed = FALSE /\ sdCalled = FALSE
+    /\ sdNil = FALSE /\ startedAtSd = {} /\ cancelled = FALSE /\ serveRet = "none" /\ lfailed = FALSE /\ sdCalled = FALSE /\ wrote = {}
 
 Upd(e) ==
     CASE e.ev = "reset" ->
             /\ cfg' = e /\ added' = {} /\ removed' = {} /\ sclosed' = {} /\ accepted' = {} /\ winLo' = 0 /\ winHi' = 0
             /\ rejected' = {} /\ rejClosed' = {} /\ closeCalled' = {} /\ started' = {} /\ replied' = {} /\ hung' = {}
-            /\ sdNil' = FALSE /\ startedAtSd' = {} /\ cancelled' = FALSE /\ serveRet' = "none" /\ lfailed' = FALSE /\ sdCalled' = FALSE
+            /\ sdNil' = FALSE /\ startedAtSd' = {} /\ cancelled' = FALSE /\ serveRet' = "none" /\ lfailed' = FALSE /\ sdCalled' = FALSE /\ wrote' = {}
       [] e.ev = "hook" ->
             LET a2 == IF e.point = "track.add" THEN added \cup {e.conn} ELSE added
                 r2 == IF e.point = "track.remove" THEN removed \cup {e.conn} ELSE removed
@@ -86,32 +92,34 @@ Upd(e) ==
                /\ rejClosed' = IF e.point = "accept.rejected" THEN rejClosed \cup {e.conn} ELSE rejClosed
                /\ IF e.point = "accept.ret" THEN winLo' = lo /\ winHi' = hi
                   ELSE winLo' = Min(winLo, lo) /\ winHi' = Max(winHi, hi)
+               \* (the reply of this connection's request has been written - or the write failed, e.g. the client is gone)
+               /\ wrote' = IF e.point \in {"conn.wrote", "conn.writefail"} THEN wrote \cup {e.conn} ELSE wrote
                /\ UNCHANGED <<cfg, rejected, closeCalled, started, replied, hung, sdNil, startedAtSd, cancelled, serveRet, lfailed, sdCalled>>
       [] e.ev = "cb.accept" ->
             /\ rejected' = IF e.decision = "reject" THEN rejected \cup {e.conn} ELSE rejected
-            /\ UNCHANGED <<cfg, added, removed, sclosed, accepted, winLo, winHi, rejClosed, closeCalled, started, replied, hung, sdNil, startedAtSd, cancelled, serveRet, lfailed, sdCalled>>
+            /\ UNCHANGED <<cfg, added, removed, sclosed, accepted, winLo, winHi, rejClosed, closeCalled, started, replied, hung, sdNil, startedAtSd, cancelled, serveRet, lfailed, sdCalled, wrote>>
       [] e.ev = "cb.close" ->
             /\ closeCalled' = closeCalled \cup {e.conn}
             /\ winLo' = Min(winLo, Cardinality(((added \ removed) \ sclosed) \ (closeCalled \cup {e.conn})))
-            /\ UNCHANGED <<cfg, added, removed, sclosed, accepted, winHi, rejected, rejClosed, started, replied, hung, sdNil, startedAtSd, cancelled, serveRet, lfailed, sdCalled>>
+            /\ UNCHANGED <<cfg, added, removed, sclosed, accepted, winHi, rejected, rejClosed, started, replied, hung, sdNil, startedAtSd, cancelled, serveRet, lfailed, sdCalled, wrote>>
       [] e.ev = "handler.start" ->
             /\ started' = started \cup {e.conn}
-            /\ UNCHANGED <<cfg, added, removed, sclosed, accepted, winLo, winHi, rejected, rejClosed, closeCalled, replied, hung, sdNil, startedAtSd, cancelled, serveRet, lfailed, sdCalled>>
+            /\ UNCHANGED <<cfg, added, removed, sclosed, accepted, winLo, winHi, rejected, rejClosed, closeCalled, replied, hung, sdNil, startedAtSd, cancelled, serveRet, lfailed, sdCalled, wrote>>
       [] e.ev = "cli.reply" ->
             /\ replied' = replied \cup {e.conn}
-            /\ UNCHANGED <<cfg, added, removed, sclosed, accepted, winLo, winHi, rejected, rejClosed, closeCalled, started, hung, sdNil, startedAtSd, cancelled, serveRet, lfailed, sdCalled>>
+            /\ UNCHANGED <<cfg, added, removed, sclosed, accepted, winLo, winHi, rejected, rejClosed, closeCalled, started, hung, sdNil, startedAtSd, cancelled, serveRet, lfailed, sdCalled, wrote>>
       [] e.ev = "op" ->
             /\ hung' = IF e.a = "hangup" THEN hung \cup {e.p} ELSE hung
             /\ cancelled' = (cancelled \/ e.a = "cancel")
             /\ lfailed' = (lfailed \/ e.a = "lfail") /\ sdCalled' = (sdCalled \/ e.a \in {"shutdown", "teardown"})   \* (teardown: the driver ends the scenario by cancelling)
-            /\ UNCHANGED <<cfg, added, removed, sclosed, accepted, winLo, winHi, rejected, rejClosed, closeCalled, started, replied, sdNil, startedAtSd, serveRet>>
+            /\ UNCHANGED <<cfg, added, removed, sclosed, accepted, winLo, winHi, rejected, rejClosed, closeCalled, started, replied, sdNil, startedAtSd, serveRet, wrote>>
       [] e.ev = "shutdown.ret" ->
             /\ sdNil' = (e.err = "nil") /\ startedAtSd' = IF e.err = "nil" THEN started ELSE {}
-            /\ UNCHANGED <<cfg, added, removed, sclosed, accepted, winLo, winHi, rejected, rejClosed, closeCalled, started, replied, hung, cancelled, serveRet, lfailed, sdCalled>>
+            /\ UNCHANGED <<cfg, added, removed, sclosed, accepted, winLo, winHi, rejected, rejClosed, closeCalled, started, replied, hung, cancelled, serveRet, lfailed, sdCalled, wrote>>
       [] e.ev = "serve.ret" ->
             /\ serveRet' = e.err
-            /\ UNCHANGED <<cfg, added, removed, sclosed, accepted, winLo, winHi, rejected, rejClosed, closeCalled, started, replied, hung, sdNil, startedAtSd, cancelled, lfailed, sdCalled>>
-      [] OTHER -> UNCHANGED <<cfg, added, removed, sclosed, accepted, winLo, winHi, rejected, rejClosed, closeCalled, started, replied, hung, sdNil, startedAtSd, cancelled, serveRet, lfailed, sdCalled>>
+            /\ UNCHANGED <<cfg, added, removed, sclosed, accepted, winLo, winHi, rejected, rejClosed, closeCalled, started, replied, hung, sdNil, startedAtSd, cancelled, lfailed, sdCalled, wrote>>
+      [] OTHER -> UNCHANGED <<cfg, added, removed, sclosed, accepted, winLo, winHi, rejected, rejClosed, closeCalled, started, replied, hung, sdNil, startedAtSd, cancelled, serveRet, lfailed, sdCalled, wrote>>
 
 Next ==
     /\ l <= Len(Trace)
